@@ -206,6 +206,10 @@ func (p *Plugin) ValidateObservation(
 		return fmt.Errorf("validate message keys: %w", err)
 	}
 
+	if err := validateCommitReportKeys(decodedObservation.CommitReports); err != nil {
+		return fmt.Errorf("validate commit report keys: %w", err)
+	}
+
 	fChain, err := p.homeChain.GetFChain()
 	if err != nil {
 		return fmt.Errorf("unable to get FChain: %w", err)
